@@ -208,14 +208,33 @@ def gop(op, st):
         return "OResp %s %s (%s %s)" % (gstr(op["version"]), gstr(op["nonce"]), PL[op["rt"]], tj(st["summary"]))
     if k == "recverr":
         return "ORecvErr %s" % gbool(op["auth"])
+    if k in ("block_send", "unblock_send"):
+        return "OTick 0"
+    if k == "burst_unblock":
+        return "OLookups %s %s" % (RT[op["rt"]], glist(op["names"], gstr))
     if k == "senderr":
         return "OSendErr"
     raise ValueError(k)
 
 
+def greq_light(q):
+    """a request of a long burst: the name list is replaced by a list of the same length (only the last three requests of
+    such a step are compared in full, see reqs_eqb) so that the generated file stays small"""
+    return "(%s, Build_request %s %s %s (repeat EmptyString %d) %s)" % (gN(q["stream"]), RT[q["type"]], gstr(q["version"]), gstr(q["nonce"]),
+                                                                     len(q["names"]), gbool(q["error"]))
+
+
 def gstep(st):
     lk = "None" if st.get("lookup") is None else "(Some %s)" % tj(st["lookup"])
-    return "(Build_step_obs %s %s %s)" % (glist(st["reqs"], greq), lk, tj(st["state"]))
+    reqs = st["reqs"]
+    if len(reqs) > 64:
+        keep = set(range(len(reqs) - 3, len(reqs)))
+        for i, q in enumerate(reqs):       # the last request of each type on each stream stays in full (quiescence clause)
+            keep.add(max(j for j, r in enumerate(reqs) if r["type"] == q["type"] and r["stream"] == q["stream"]))
+        rs = "[" + "; ".join(greq(q) if i in keep else greq_light(q) for i, q in enumerate(reqs)) + "]"
+    else:
+        rs = glist(reqs, greq)
+    return "(Build_step_obs %s %s %s %s)" % (rs, lk, tj(st["state"]), gbool(bool(st.get("deferred"))))
 
 
 def merge_oracles(steps):
@@ -268,8 +287,8 @@ def describe(c, o):
             ops.append("resp %s %s %d resources" % (op["rt"], op["version"], len(op["resources"])))
         elif op["op"] == "lookup":
             ops.append("lookup %s %s" % (op["rt"], op["name"]))
-        elif op["op"] == "lookups":
-            ops.append("lookups %s x%d" % (op["rt"], len(op["names"])))
+        elif op["op"] in ("lookups", "burst_unblock"):
+            ops.append("%s %s x%d" % (op["op"], op["rt"], len(op["names"])))
         else:
             ops.append(op["op"] + (" auth" if op.get("auth") else ""))
     return {"cfg": c["cfg"], "ops": ops, "fatal": o.get("fatal"),
@@ -278,7 +297,7 @@ def describe(c, o):
 
 def shrink(c):
     ops = c["ops"]
-    if any(op["op"] == "lookups" for op in ops):
+    if any(op["op"] in ("lookups", "burst_unblock", "block_send") for op in ops):
         return      # burst scenarios are fixed, already minimal, and expensive to re-evaluate
     # drop suffixes first, then single ops
     for cut in (len(ops) // 2, len(ops) - 1):
